@@ -156,6 +156,11 @@ def write_cfg(path, kind, maxn, depth, batches="SomeBatches", emit=True, mc=Fals
 def main(argv=None):
     ck = common.Check("C16", argv)
     common.setup_repo_import()
+    rec = ck.replay_record()
+    if rec is not None:
+        ok, why = replay(rec["behaviour"])
+        ck.replayed(rec, ok, why)
+        return ck.finish()
     wd = tlc.workdir("C16")
     q = ck.quick
     maxn = 3
@@ -170,16 +175,14 @@ def main(argv=None):
         depth = 2 if q else 3
         cfg = os.path.join(wd, "ex_%s.cfg" % kind)
         write_cfg(cfg, kind, maxn, depth)
-        behs, st = tlc.export("Graphs", cfg, heap="6g", timeout=3000)
-        ck.states += st["distinct"]
-        ck.transitions += st["generated"]
+        behs = ck.export("Graphs", cfg, heap="6g", timeout=3000)
         ck.count("behaviours_exhaustive_depth%d_%s" % (depth, kind), len(behs))
         # 3. long random walks
         walks = 200 if q else 4000
         wdepth = 10 if q else 15
         cfg = os.path.join(wd, "sim_%s.cfg" % kind)
         write_cfg(cfg, kind, maxn, wdepth)
-        sims, st2 = tlc.export("Graphs", cfg, heap="4g", timeout=3000,
+        sims = ck.export("Graphs", cfg, heap="4g", timeout=3000,
                                extra=["-simulate", "num=%d" % walks, "-depth", str(wdepth + 2),
                                       "-seed", str(ck.seed + 17)])
         ck.count("walks_depth%d_%s" % (wdepth, kind), len(sims))
@@ -189,13 +192,9 @@ def main(argv=None):
         for j, beh in enumerate(behs + sims):
             ok, why = results[j]
             nb += 1
-            ck.traces += 1
-            ck.evaluations += 1
             if j in (0, len(behs)) and kind == "simple":
                 ck.sample({"kind": kind, "calls": [[s["act"], s["args"], s["res"]] for s in beh["hist"]]})
-            if not ok:
-                rec = {"id": "%s-%d" % (kind, j), "behaviour": beh}
-                ck.report(rec, why)
+            ck.replayed({"id": "%s-%d" % (kind, j), "behaviour": beh}, ok, why)
     ck.assumptions += ["vertex counts 0..3 (4 for the model check of simple graphs in the thorough tier), "
                        "arguments 0..MaxN+1; behaviours of bounded depth"]
     return ck.finish(rule="one case = one TLC behaviour (constructor + sequence of calls with arguments) replayed into the "
